@@ -28,9 +28,9 @@ CHECKS = {
  'C14': _c(BOUNDED + '; language equality decided exactly', 'All pairs of small DFAs through the three products, all small DFAs through complement / reverse / no_prefix / no_extend / remove_unreachable, all partial DFAs through totalisation, each compared exactly with an oracle-built reference construction; finite-language helpers on all 128 languages over {a,b}^<=2 (and all pairs).', 'Trusted: fa oracle.', '4/C14'),
  'C15': _c(SCHED + ' with a loop-iteration budget as termination oracle', 'Every small DFA / NFA (incl. epsilon self-loops, cycles, re-converging paths, 4-state epsilon-heavy family) / PDA x word, and every small CNF grammar x generated word x derivation type: the returned run / derivation is validated step by step against the transition relation / the rules; None for rejected words; a result must arrive within the step budget under CPython order and every <= d set-order deviation.', 'PDA runs are demanded only inside the closure premise (limit 12 in this check). Trusted: validators in mc/props/c15.py, fa/pda/cfg oracles.', '4/C15'),
  'C16': _c(BOUNDED, 'parse(print(x)) is compared field by field with x for every DFA / NFA / PDA / TM of the spaces (printable epsilon / blank, empty alphabets, empty F); expressions through all three printers with exact language equality and print stability; expressible grammars with == and a field-wise comparison.', 'State names equal to format keywords and epsilon = empty string are not representable in the text formats and outside the space.', '4/C16'),
- 'C17': _c(BOUNDED + ' (layouts x single-fault corruptions)', 'Known automata are rendered in every well-formed layout (declaration orders, omissible declarations, transitions before/after/interleaved, grouped labels, comments, tabs/CRLF) and must parse to exactly that automaton; every single-fault corruption of the canonical text (12 fault classes, every position) must raise; every object a parser returns is re-validated by oracle code.', 'Trusted: the renderer and fault injector in mc/props/c17.py (what counts as well formed is stated in the evidence assumptions).', '4/C17'),
+ 'C17': _c(BOUNDED + ' (layouts x single-fault corruptions)', 'Known automata are rendered in every well-formed layout (declaration orders, omissible declarations, transitions before/after/interleaved, grouped labels, comments, tabs/CRLF) and must parse to exactly that automaton; every single-fault corruption of the canonical text (12 fault classes, every position) must raise - for ill-formed labels also after the parsers of the other three kinds have seen the same token in a description of their own (history across parsers); every object a parser returns is re-validated by oracle code.', 'Trusted: the renderer and fault injector in mc/props/c17.py (what counts as well formed is stated in the evidence assumptions).', '4/C17'),
  'C18': _c('explicit-state breadth-first search over call histories of the real functions + bounded exhaustive operand pairs vs reference constructions', 'All operand pairs of the spaces x 5 name schemes x 3 epsilon spellings x default/private identifier generator from the pristine library state, and BFS over all call sequences (depth <= 2 / 3) of union / concatenation / star on pools of NFAs (results join the pool): valid result, exact language vs reference constructions on operand snapshots, fresh new state, operands untouched.', 'Pristine state = module globals, function defaults, class attributes restored from a deep copy taken at import. Trusted: fa oracle.', '4/C18'),
- 'C19': _c('explicit-state breadth-first search over call histories + bounded exhaustive argument snapshots + enumeration of hash seeds in fresh processes and of the logging switch', 'About 80 operations: (a) argument snapshots before/after on every instance of their catalogs, with logging off and on; (b) BFS over call sequences (depth 2 over all operations, 3 over the core) on a pool of 9 objects: pool unchanged and result equal (language / value / verdict) to the same call on equal arguments in a pristine state; (c) a fixed battery in fresh processes under PYTHONHASHSEED 0..2 (0..15 thorough), digests must agree.', 'Generality over set orders rests on the scheduler runs of C04/C06/C08/C15/C20; hash seeds are a finite enumeration. Which witness a simulator returns is not compared.', '4/C19'),
+ 'C19': _c('explicit-state breadth-first search over call histories + bounded exhaustive argument snapshots + enumeration of hash seeds in fresh processes, of set-order policies of the scheduler and of the logging switch', 'About 80 operations: (a) argument snapshots before/after on every instance of their catalogs, with logging off and on; (b) BFS over call sequences (depth 2 over all operations, 3 over the core) on a pool of 9 objects: pool unchanged and result equal (language / value / verdict) to the same call on equal arguments in a pristine state; (c) a fixed battery in fresh processes under PYTHONHASHSEED 0..2 (0..15 thorough), digests must agree; (e) a prefix of that battery in fresh instrumented processes under 4 (12 thorough) set-order policies - global canonical / reversed order, per-object orders - digests must agree with the plain processes.', 'Generality over set orders rests on layer (e) for the battery and on the scheduler runs of C04/C06/C08/C15/C20 for deviation-bounded exploration; hash seeds and order policies are finite enumerations. Which witness a simulator returns is not compared.', '4/C19'),
  'C20': _c(SCHED + ' with a loop-iteration budget as termination oracle', 'All ordered pairs of small DFAs (second operand renamed or with identical names) x both routines x CPython order + every <= d deviation: answer must equal a synchronous-BFS bijection decider and arrive within the step budget.', 'Trusted: fa.iso (cross-checked against brute-force permutation search); termination = result within 20 000 loop iterations.', '4/C20'),
 }
 NOT_YET = {}
